@@ -124,7 +124,8 @@ def eff_level(method, level):
 def with_tables(exe, progs):
     """progs: list of dict(ops=..., base=..., plan=...).  Returns (request lines carrying the compressor oracle,
     pass-1 outputs).  The oracle values come from the codec libraries called directly by the harness with the
-    parameters the crate passes them (method, effective level, whole content)."""
+    parameters the crate passes them (method, effective level) and the content fed in the same pieces as the
+    program's write calls (a streaming encoder's output may depend on where its input was split)."""
     first = [line(p["ops"], p.get("base"), p.get("plan")) for p in progs]
     outs = run_lines(exe, first)
     want = {}
@@ -132,14 +133,15 @@ def with_tables(exe, progs):
     for p, o in zip(progs, outs):
         calls, _ = final_bytes(o)
         cands = []
-        for m, lvl, c in all_prefix_contents(p["ops"], calls):
+        for m, lvl, c, chunks in all_prefix_contents(p["ops"], calls):
             if m in (8, 12, 93) and level_valid(m, lvl):
                 key = (m, eff_level(m, lvl), c)
                 cands.append(key)
-                want.setdefault(key, None)
+                want.setdefault(key, chunks)
         per_prog.append(cands)
     keys = list(want)
-    reqs = ["compress %d %d %d %s" % (m, 1 if l >= 0 else 2, abs(l), hexs(c)) for m, l, c in keys]
+    reqs = ["compress %d %d %d %s" % (m, 1 if l >= 0 else 2, abs(l), " ".join(hexs(ch) for ch in (want[(m, l, c)] or [b""])))
+            for m, l, c in keys]
     res = run_lines(exe, reqs) if reqs else []
     for k, r in zip(keys, res):
         want[k] = bytes.fromhex(r[1:]) if r and r.startswith("x") else b""
@@ -159,8 +161,9 @@ def level_valid(m, lvl):
     return (m == 8 and 0 <= lvl <= 9) or (m == 12 and 1 <= lvl <= 9) or (m == 93 and -7 <= lvl <= 22)
 
 def all_prefix_contents(ops, calls=None):
-    """(method, content) candidates for every entry: the successful content writes since it was started.
-    Mode toggles (extra data) only count when the call succeeded (known from pass 1)."""
+    """(method, level, content, chunks) candidates for every entry: the successful content writes since it was
+    started (chunks = the non-empty pieces in which they arrived).  Mode toggles (extra data) only count when the
+    call succeeded (known from pass 1)."""
     out = []
     cur = None
     to_extra = False
@@ -172,12 +175,12 @@ def all_prefix_contents(ops, calls=None):
         k = op[0]
         if k in ("file", "extra", "aligned"):
             if ok or k != "file":
-                cur = [op[2].method, op[2].level, b""]
+                cur = [op[2].method, op[2].level, b"", []]
                 to_extra = (k == "extra") and ok
-                out.append((cur[0], cur[1], b""))
+                out.append((cur[0], cur[1], b"", []))
             if k == "file" and not ok:
                 # the entry may exist although the call failed after writing its header
-                out.append((op[2].method, op[2].level, b""))
+                out.append((op[2].method, op[2].level, b"", []))
         elif k in ("dir", "symlink", "rawcopy", "finish"):
             if ok:
                 cur = None
@@ -189,5 +192,7 @@ def all_prefix_contents(ops, calls=None):
                 to_extra = True
         elif k == "write" and cur is not None and not to_extra and ok:
             cur[2] += op[1]
-            out.append((cur[0], cur[1], cur[2]))
+            if op[1]:
+                cur[3] = cur[3] + [op[1]]
+            out.append((cur[0], cur[1], cur[2], cur[3]))
     return out
